@@ -6,6 +6,8 @@ a bounded depth is executed with a raw websocket client against the real connect
 sequence, in-process server, cleanup delay virtualised); the observable trace - init-echo state of every
 connection, ok/refused for config and upload, the search result (which identifies the index that answered) -
 must equal the model's, and at the end the files on disk must be the accepted configuration and index.
+Bursts: 2..4 requests written back-to-back without reading replies (after 0, 1 or 2 acknowledged steps): no more
+acknowledgements than the requests up to the first refusal grant, and afterwards state, files and search per model.
 """
 import asyncio
 import itertools
@@ -19,6 +21,7 @@ from vlib.common import exc_site, fp, retry_on_timeout
 LEVEL = "exploration"
 SHARD_TIMEOUT = {"quick": 280, "thorough": 1700}
 SYMS = ["c1", "c2", "u1", "u2", "s", "re", "fo", "un"]
+PSYMS = ["c1", "c2", "u1", "u2", "s"]
 
 
 def plan(tier, seed):
@@ -42,6 +45,10 @@ def plan(tier, seed):
             for c3 in SYMS:
                 specs.append({"name": f"exh6-c1{b}{c3}", "kind": "exh", "prefix": ["c1", b, c3], "depth": 6,
                               "exact_len": True, "budget_s": 1500})
+    # bursts: 2..4 requests written back-to-back on one connection, without waiting for the replies
+    for a in PSYMS:
+        specs.append({"name": f"burst-{a}", "kind": "burst", "first": a, "depth": 3 if tier == "quick" else 4,
+                      "budget_s": 120 if tier == "quick" else 900})
     for i in range(8 if tier == "quick" else 16):
         specs.append({"name": f"rand{i}", "kind": "rand", "index": i, "sequences": 60 if tier == "quick" else 900,
                       "budget_s": 60 if tier == "quick" else 900})
@@ -288,6 +295,129 @@ class Runner:
                 gate.release_all()
             acc.count("cases")
 
+    async def run_burst(self, prelude, burst):
+        """prelude: requests made one by one (each reply awaited) on a first connection; burst: requests written
+        back-to-back on a second connection. Model: the server handles one connection's messages in order and drops
+        the connection at the first refused one, so the burst is accepted up to its first refusal. Replies may be
+        lost when the connection is dropped; what must hold: no acknowledgement the model does not grant, and the
+        state, the stored files and the search answer of the model afterwards."""
+        acc, fx = self.acc, self.fx
+        rng = self.ctx.rng
+        sid = "%064x" % (rng.getrandbits(255) + 1)
+        acc.count("bursts")
+        model = Model()
+        case = {"prelude": list(prelude), "burst": list(burst)}
+
+        def viol(sig, msg):
+            acc.violation("server:burst:" + sig, msg + f"  (prelude {' '.join(prelude) or '-'}; burst {' '.join(burst)})",
+                          dict(case, sid=sid))
+
+        def payload(sym):
+            if sym in ("c1", "c2"):
+                return "config", pickle.dumps(getattr(fx, sym)), {}
+            if sym in ("u1", "u2"):
+                return "upload_edb", fx.edb["e" + sym[1]], {}
+            return "token", fx.token, {"token_digest": b"digest"}
+        conn = None
+        try:
+            if prelude:
+                conn = await wh.RawConn(self.server.uri, sid).open()
+                for sym in prelude:
+                    t, c, extra = payload(sym)
+                    await conn.send(t, c, **extra)
+                    exp = model.step(sym)
+                    ev = await conn.next_event(6)
+                    if exp != "ok" or ev[0] != "msg" or wh.decode_reply(ev[1])[1] != "ok":
+                        acc.note("burst prelude not acknowledged")
+                        return
+                await conn.close()
+                await wh.settle(6)
+            conn = await wh.RawConn(self.server.uri, sid).open()
+            if conn.init_state != model.state:
+                viol("init-echo-state", f"told state {conn.init_state!r}, model {model.state}")
+                return
+            granted = {"config": 0, "upload_edb": 0, "result": 0}
+            alive = True
+            for sym in burst:
+                acc.add("pairs_burst", f"{model.state}:{sym}")
+                if alive:
+                    exp = model.step(sym)
+                    if exp == "refused":
+                        alive = False     # the model's connection is dropped here; the rest is never handled
+                    elif exp == "ok":
+                        granted["config" if sym[0] == "c" else "upload_edb"] += 1
+                    else:
+                        granted["result"] += 1
+            for sym in burst:               # one write per request, no read in between
+                t, c, extra = payload(sym)
+                try:
+                    await conn.send(t, c, **extra)
+                except Exception:
+                    break
+            seen = {"config": 0, "upload_edb": 0, "result": 0}
+            results = []
+            for _ in range(len(burst) + 1):
+                try:
+                    ev = await conn.next_event(0.5 if not alive else 3)
+                except wh.Timeout:
+                    break
+                if ev[0] == "closed":
+                    break
+                t, verdict, pl = wh.decode_reply(ev[1])
+                acc.count("burst_replies")
+                if verdict == "ok" and t in seen:
+                    seen[t] += 1
+                elif verdict == "result":
+                    seen["result"] += 1
+                    results.append(pl)
+            await conn.close()
+            for t in seen:
+                if seen[t] > granted[t]:
+                    viol(f"acknowledged-more-than-accepted:{t}",
+                         f"{seen[t]} positive '{t}' replies although the requests up to the first refusal grant {granted[t]}")
+                    return
+            for pl in results:
+                if pl != fx.ids.get(model.edb):
+                    viol("result-from-another-index", "a search in the burst was answered from another index than the "
+                                                      "accepted one")
+                    return
+            await wh.settle(8)
+            conn = await wh.RawConn(self.server.uri, sid).open()
+            if conn.init_state != model.state:
+                viol("state-after-burst", f"afterwards a new connection is told state {conn.init_state!r}; the requests "
+                                          f"accepted up to the first refusal imply {model.state}")
+                return
+            if model.state == 2:
+                await conn.send("token", fx.token, token_digest=b"digest")
+                ev = await conn.next_event(6)
+                ok = ev[0] == "msg" and wh.decode_reply(ev[1])[1] == "result" and \
+                    wh.decode_reply(ev[1])[2] == fx.ids[model.edb]
+                if not ok:
+                    viol("search-after-burst", f"afterwards a search is not answered from the accepted index {model.edb}")
+                    return
+            await conn.close()
+            await wh.settle(8)
+            d = self.server.server_dir(sid)
+            if model.state >= 1:
+                on_disk = json.load(open(os.path.join(d, "config.json")))
+                if on_disk != getattr(fx, model.cfg):
+                    viol("stored-config-replaced", f"config.json is not the accepted configuration {model.cfg}")
+                    return
+                if model.state == 2 and open(os.path.join(d, "edb"), "rb").read() != fx.edb[model.edb]:
+                    viol("stored-index-replaced", f"the stored index is not the accepted one ({model.edb})")
+                    return
+            acc.add("distinct", fp("burst", list(prelude), list(burst)))
+        except wh.Timeout:
+            acc.count("timeouts")
+            acc.note(f"timeout in burst {' '.join(prelude)} | {' '.join(burst)}")
+        except Exception as e:
+            acc.count("harness_errors")
+            acc.note(f"harness error {exc_site(e)} {type(e).__name__}: {e} in burst {' '.join(burst)}")
+        finally:
+            if conn is not None:
+                await conn.close()
+            acc.count("cases")
+
     @staticmethod
     def _state_before(model, sym, expected):
         # the model has already stepped; reconstruct the pre-state for the signature
@@ -322,6 +452,16 @@ async def amain(spec, acc, ctx, virtual=True):
                             any(x in ("c1", "u1", "u2", "c2") for x in sq[:sq.index("re")]):
                         await retry_on_timeout(acc, lambda: r.run_sequence(sq, gated="late"))
         acc.add("exhaustive_prefixes", "".join(pre))
+    elif kind == "burst":
+        for prelude in ([], ["c1"], ["c1", "u1"]):
+            for L in range(2, spec["depth"] + 1):
+                for rest in itertools.product(PSYMS, repeat=L - 1):
+                    if ctx.out_of_time() or acc.counters.get("timeouts", 0) > 3 or acc.n_violations > 25:
+                        acc.count("burst_incomplete")
+                        await server.stop()
+                        return
+                    await retry_on_timeout(acc, lambda: r.run_burst(prelude, [spec["first"]] + list(rest)))
+        acc.add("burst_prefixes", spec["first"])
     elif kind == "rand":
         for i in range(spec["sequences"]):
             if ctx.out_of_time() or acc.counters.get("timeouts", 0) > 3 or acc.n_violations > 25:
@@ -355,6 +495,10 @@ def replay(case, acc, ctx):
         wh.setup_env()
         server = await wh.Server().start()
         r = Runner(acc, ctx, server, Fixture(ctx.rng))
+        if "burst" in case:
+            await r.run_burst(case["prelude"], case["burst"])
+            await server.stop()
+            return
         await r.run_sequence(case["sequence"], gated=False)
         await r.run_sequence(case["sequence"], gated=True)
         await r.run_sequence(case["sequence"], gated="late")
@@ -371,6 +515,8 @@ def finish(m, tier, seed):
     exhaustive = len(m["sets"].get("exhaustive_prefixes", [])) == want_pref and not c.get("exhaustive_incomplete")
     if not exhaustive:
         inc.append("the exhaustive enumeration did not complete")
+    if len(m["sets"].get("burst_prefixes", [])) < len(PSYMS) or c.get("burst_incomplete"):
+        inc.append("the burst enumeration did not complete")
     pairs = set(m["sets"].get("pairs", []))
     need = {f"{s}:{x}" for s in (0, 1, 2) for x in SYMS}
     if not need <= pairs:
@@ -399,6 +545,8 @@ def finish(m, tier, seed):
         "sequences_with_reconnect_after_cleanup": c.get("sequences.ungated", 0),
         "sequences_with_cleanup_delay_outliving_the_reconnect": c.get("sequences.gated-late", 0),
         "realtime_sequences": c.get("realtime_sequences", 0),
+        "bursts_written_without_waiting_for_replies": c.get("bursts", 0),
+        "burst_replies_observed": c.get("burst_replies", 0),
     }
     return {"coverage": cov, "inconclusive": inc,
             "assumptions": ["the 1 s cleanup delay is virtualised by a module-local asyncio proxy (thorough also runs a "
